@@ -9,10 +9,14 @@
 //!   `ix <decode-arg> <a> <b> <c> <d>` → `ok <data-hex>`           `MakeInstruction::instruction`
 //!   `run`                             → `ok used=<n> rem=<k> val=<decoded> v=<ok|sig|wr|key> args=<a>,<b>,<c>,<d>` | `err:<class>`
 //!   `cpi`                             → `ok metas=<…> infos=<key,…> decl=<n>` | `err:<class>`
+//!   `tix <idx> <name> <self-ann> <anns> <vals> <k>` → `ok <data-hex> used=<n> rem=<r> d=<len> v=<..> r=<..> c=<..>`
+//!       a tuple-struct instruction (`tuples.rs`) with `u8` field values `vals`, sent with `k` accounts:
+//!       what each phase of the entry path received (`anns`: per field the letters of d/v/r/c it is annotated with)
 //! Keys are names: `pid` (the program), `sys`, `rent`, `ixs`, `k<N>` (`key_from(N)`).
 use crate::{
     probe::{key_of_name, name_of_key},
     sets::{registry, Direct, HxIxSet, RunArgs, SetEntry, Stash, Trace, PID, STASH, TRACE},
+    tuples::{t_registry, TEntry},
     sexp::Sexp,
 };
 use hx_common::{hex, json, unhex, Args, Recorder, Rng, Value};
@@ -501,15 +505,17 @@ fn exec_inner<'a>(rec: &mut Recorder, table: &'a [SetEntry], st: &mut St<'a>, t:
     match t {
         ["table", discs @ ..] => {
             // any list of real instruction discriminants (so that a corpus file survives new sets)
-            if discs.iter().any(|d| !table.iter().any(|e| hex(&(e.disc)()) == *d)) {
+            let all = all_discs(table);
+            if discs.iter().any(|d| !all.contains(&d.to_string())) {
                 return bad();
             }
             *st = St { listed: Some(discs.iter().map(|d| d.to_string()).collect()), ..St::default() };
             // oracle: the dispatch arms are pairwise distinct
-            let mut ds: Vec<String> = table.iter().map(|e| hex(&(e.disc)())).collect();
+            let mut ds: Vec<String> = all_discs(table);
+            let n_all = ds.len();
             ds.sort();
             ds.dedup();
-            if ds.len() != table.len() {
+            if ds.len() != n_all {
                 pend("duplicate_instruction_discriminants", line);
             }
             format!("ok {}", discs.len())
@@ -536,6 +542,18 @@ fn exec_inner<'a>(rec: &mut Recorder, table: &'a [SetEntry], st: &mut St<'a>, t:
                 pend("account_len_wrong", &format!("{line}: AccountLen={len}, shape says {want_len}"));
             }
             format!("ok min={min} len={len} copt={}", copt as u8)
+        }
+        ["tix", idx, name, self_ann, anns, vals, k] => {
+            let Some(listed) = st.listed.clone() else { return bad() };
+            let (Some(idx), Some(k)) = (small_dec(idx, 3), small_dec(k, 2)) else { return bad() };
+            let ts = t_registry();
+            let Some(te) = ts.iter().find(|t| t.name == *name) else { return bad() };
+            if listed.get(idx as usize) != Some(&hex(&(te.disc)())) || te.self_ann != *self_ann || te.anns != *anns || k > 20 {
+                return bad();
+            }
+            let Some(vals) = vals.split(',').map(|v| small_dec(v, 3).filter(|x| *x < 256).map(|x| x as u8)).collect::<Option<Vec<u8>>>() else { return bad() };
+            let Some(data) = (te.data)(&vals) else { return bad() };
+            tix_exec(te, &vals, k as usize, &data)
         }
         ["client", val] => {
             let (Some(e), Some(shape)) = (st.entry, st.shape.clone()) else { return bad() };
@@ -792,6 +810,78 @@ fn exec_inner<'a>(rec: &mut Recorder, table: &'a [SetEntry], st: &mut St<'a>, t:
     }
 }
 
+fn all_discs(table: &[SetEntry]) -> Vec<String> {
+    table.iter().map(|e| hex(&(e.disc)())).chain(t_registry().iter().map(|t| hex(&(t.disc)()))).collect()
+}
+
+/// expected argument of a phase from the source-level annotations: the whole struct if the struct is annotated,
+/// then the annotated fields' values
+fn o_phase(letter: char, te: &TEntry, vals: &[u8]) -> String {
+    let mut parts: Vec<String> = vec![];
+    if te.self_ann.contains(letter) {
+        parts.push(vals.iter().map(|v| v.to_string()).collect::<Vec<_>>().join("."));
+    }
+    for (a, v) in te.anns.split(',').zip(vals) {
+        if a.contains(letter) {
+            parts.push(v.to_string());
+        }
+    }
+    if parts.is_empty() { "-".into() } else { parts.join("+") }
+}
+
+fn tix_exec(te: &TEntry, vals: &[u8], k: usize, data: &[u8]) -> String {
+    // oracle: client data = discriminant ++ the fields in declaration order
+    let mut want = (te.disc)().to_vec();
+    want.extend_from_slice(vals);
+    if data != want {
+        pend("instruction_data_layout", &format!("{} {vals:?}", te.name));
+    }
+    let specs: Vec<AcctSpec> = (1..=k).map(|i| AcctSpec::new(key_of_name(&format!("k{i}")).unwrap(), System::ID).lamports(1)).collect();
+    let res = isolated(|| {
+        let world = World::new(&specs);
+        let r = (te.exec)(world.infos(), data);
+        json!({
+            "direct": match &r.direct { Ok((rem, len)) => json!({"rem": rem, "len": len}), Err(c) => json!({"err": c}) },
+            "entry": r.entry, "decoded": r.spy.decoded, "validate": r.spy.validate, "run": r.spy.run, "cleanup": r.spy.cleanup,
+        })
+    });
+    let v = match res {
+        Ok(v) if v.as_str() == Some("panic") => {
+            pend("run_panics", te.name);
+            return "panic".into();
+        }
+        Ok(v) => v,
+        Err(how) => {
+            pend("run_crashes_or_hangs", &format!("{how}: {}", te.name));
+            return "crash".into();
+        }
+    };
+    let d_want: usize = o_phase('d', te, vals).parse().unwrap_or(usize::MAX);
+    if let Some(c) = v["direct"]["err"].as_str() {
+        if k >= d_want {
+            pend("ix_args_phase_gets_wrong_field", &format!("{} vals {vals:?} with {k} accounts: decode -> {c} (decode argument should be {d_want})", te.name));
+        }
+        if v["entry"].as_str() != Some(c) {
+            pend("entry_path_differs_from_direct_decode", te.name);
+        }
+        return if c == "err:Custom9004" { "err:notenough".into() } else { c.to_string() };
+    }
+    let (rem, len) = (v["direct"]["rem"].as_u64().unwrap() as usize, v["direct"]["len"].as_u64().unwrap() as usize);
+    let num = |x: &Value| x.as_u64().map(|n| n.to_string()).unwrap_or_else(|| "-".into());
+    let (val, cln) = (num(&v["validate"]), num(&v["cleanup"]));
+    let run = v["run"].as_str().unwrap_or("-").to_string();
+    // ---- oracle: every phase saw the field annotated for it
+    let got = format!("d={len} v={val} r={run} c={cln}");
+    let want = format!("d={} v={} r={} c={}", o_phase('d', te, vals), o_phase('v', te, vals), o_phase('r', te, vals), o_phase('c', te, vals));
+    if got != want || v["entry"].as_str() != Some("ok") || v["decoded"].as_u64() != Some(len as u64) || k < d_want || rem != k - d_want.min(k) {
+        pend(
+            "ix_args_phase_gets_wrong_field",
+            &format!("{} fields {vals:?} sent with {k} accounts: program saw {got} (used {} accounts, entry {}), client meant {want}", te.name, k - rem, v["entry"]),
+        );
+    }
+    format!("ok {} used={} rem={rem} {got}", hex(data), k - rem)
+}
+
 // =============================================================================== generator
 struct Gen<'r> {
     rng: &'r mut Rng,
@@ -1036,7 +1126,7 @@ pub fn run(args: &Args) {
     }
     let mut rng = Rng::new(args.seed);
     let thorough = args.thorough();
-    let table_line = format!("table {}", table.iter().map(|e| hex(&(e.disc)())).collect::<Vec<_>>().join(" "));
+    let table_line = format!("table {}", all_discs(&table).join(" "));
     let (enum_cap, n_batches, per_batch) = if thorough { (1024, 20, 100) } else { (128, 4, 40) };
     for (si, e) in table.iter().enumerate() {
         let shape = (e.shape)();
@@ -1080,6 +1170,32 @@ pub fn run(args: &Args) {
             if batch == 0 && ["S13", "S37", "V05"].contains(&e.name) {
                 rec.sample_current(5);
             }
+        }
+    }
+    // ---- tuple-struct instructions: which field each phase receives
+    for (ti, te) in t_registry().iter().enumerate() {
+        rec.case(&format!("case t{ti} tuple-ix {}", te.name));
+        let mut st = St::default();
+        exec(&mut rec, &table, &mut st, &table_line);
+        let n_fields = te.anns.split(',').count();
+        let d_pos = te.anns.split(',').position(|a| a.contains('d')).unwrap();
+        let n = if thorough { 400 } else { 40 };
+        for j in 0..n {
+            // distinct values in every field so that a mix-up is visible; the decode field small
+            let mut vals: Vec<u64> = (0..n_fields).map(|f| if j == 0 { 1 + f as u64 } else { rng.below(256) }).collect();
+            vals[d_pos] = if j == 0 { 2 } else { rng.below(6) };
+            let k = match rng.below(8) {
+                0 => vals[d_pos] + 1 + rng.below(2),
+                1 if vals[d_pos] > 0 => vals[d_pos] - 1,
+                _ => vals[d_pos],
+            };
+            let vs = vals.iter().map(|v| v.to_string()).collect::<Vec<_>>().join(",");
+            exec(&mut rec, &table, &mut st, &format!("tix {} {} {} {} {vs} {k}", table.len() + ti, te.name, te.self_ann, te.anns));
+        }
+        rec.bump(&format!("tuple_ix:{}", te.name));
+        rec.mark_nontrivial();
+        if ti == 0 {
+            rec.sample_current(6);
         }
     }
     rec.extra.insert("sets".into(), hx_common::json!(table.iter().map(|e| format!("{} {}", e.name, (e.shape)())).collect::<Vec<_>>()));
